@@ -150,6 +150,10 @@ func main() {
 		replay(os.Args[2])
 		return
 	}
+	if len(os.Args) >= 2 && os.Args[1] == "--determinism" {
+		determinism(os.Args[2:])
+		return
+	}
 	if len(os.Args) < 3 {
 		die(2, "usage: vcheck <property> quick|thorough | vcheck --replay <file>")
 	}
@@ -171,7 +175,11 @@ func main() {
 	fmt.Printf("vcheck: property=%s tier=%s VERIF_SEED=%d\n", prop, tier, seed)
 	os.MkdirAll(filepath.Join(verifDir, ".build"), 0o755)
 	os.MkdirAll(filepath.Join(verifDir, "replays"), 0o755)
-	os.MkdirAll(filepath.Join(verifDir, "evidence"), 0o755)
+	evDir := filepath.Join(verifDir, "evidence")
+	if d := os.Getenv("VERIF_EVIDENCE_DIR"); d != "" {
+		evDir = d // used when checks are run against a seeded change: the committed evidence must come from the unchanged tree
+	}
+	os.MkdirAll(evDir, 0o755)
 	bin := build(false)
 	raceBin := ""
 	if cfg.Race {
@@ -423,7 +431,7 @@ func main() {
 		"assumptions": append(append([]string{}, commonAssume...), cfg.Assume...), "wall_s": wall, "violations": len(confirmed),
 	}
 	b, _ := json.MarshalIndent(ev, "", " ")
-	if err := os.WriteFile(filepath.Join(verifDir, "evidence", prop+".json"), b, 0o644); err != nil {
+	if err := os.WriteFile(filepath.Join(evDir, prop+".json"), b, 0o644); err != nil {
 		die(2, "cannot write evidence: %v", err)
 	}
 	fmt.Printf("vcheck: %d simulated runs, %d distinct non-trivial, %d schedules, %.0f simulated s, %.1f s wall\n", total.Runs, len(hashes), len(sched), total.SimS, wall)
@@ -529,4 +537,77 @@ func abbreviate(s string, n int) string {
 		return s
 	}
 	return s[:n/2] + "\n…\n" + s[len(s)-n/2:]
+}
+
+// determinism: for every claimed property, the same seed must give byte-identical history digests in separate
+// processes under GOMAXPROCS 1, 4 and 16 (two runs each). Exit 2 on any difference.
+func determinism(args []string) {
+	bin := build(false)
+	var ps []string
+	for _, a := range args {
+		if _, ok := props[a]; ok {
+			ps = append(ps, a)
+		}
+	}
+	if len(ps) == 0 {
+		for p := range props {
+			ps = append(ps, p)
+		}
+	}
+	sort.Strings(ps)
+	seeds := []string{"1", "2", "3", "5", "8", "13", "21", "34"}
+	n := "12"
+	type job struct{ prop, seed, gmp string }
+	results := map[job]string{}
+	var mu sync.Mutex
+	var wg sync.WaitGroup
+	sem := make(chan struct{}, runtime.NumCPU())
+	gmps := []string{"1", "1", "4", "16", "16"}
+	for _, p := range ps {
+		for _, s := range seeds {
+			for gi, g := range gmps {
+				wg.Add(1)
+				go func(p, s, g string, gi int) {
+					defer wg.Done()
+					sem <- struct{}{}
+					defer func() { <-sem }()
+					cmd := exec.Command(bin, "-test.run", "^TestDigests$", "-test.timeout", "0", "-prop", p, "-seed", s, "-digests", n)
+					cmd.Env = append(os.Environ(), "GOMAXPROCS="+g)
+					out, _ := cmd.CombinedOutput()
+					var lines []string
+					for _, l := range strings.Split(string(out), "\n") {
+						if strings.HasPrefix(l, "DIGEST ") {
+							lines = append(lines, l)
+						}
+					}
+					mu.Lock()
+					results[job{p, s, fmt.Sprintf("%s#%d", g, gi)}] = strings.Join(lines, "\n")
+					mu.Unlock()
+				}(p, s, g, gi)
+			}
+		}
+	}
+	wg.Wait()
+	bad := 0
+	total := 0
+	for _, p := range ps {
+		for _, s := range seeds {
+			ref := results[job{p, s, "1#0"}]
+			if ref == "" {
+				fmt.Printf("determinism: %s seed %s produced no digests\n", p, s)
+				bad++
+			}
+			for gi, g := range gmps {
+				total++
+				if got := results[job{p, s, fmt.Sprintf("%s#%d", g, gi)}]; got != ref {
+					bad++
+					fmt.Printf("determinism: MISMATCH property=%s seed=%s GOMAXPROCS=%s run %d\n--- reference\n%s\n--- got\n%s\n", p, s, g, gi, abbreviate(ref, 1500), abbreviate(got, 1500))
+				}
+			}
+		}
+	}
+	fmt.Printf("determinism: %d properties × %d seeds × %d processes (GOMAXPROCS 1,1,4,16,16) × %s plans each: %d comparisons, %d mismatches\n", len(ps), len(seeds), len(gmps), n, total, bad)
+	if bad > 0 {
+		os.Exit(2)
+	}
 }
